@@ -51,7 +51,7 @@ class Emitter:
         if t is False:
             return 'false'
         if isinstance(t, int):
-            return '(%d)' % t if t < 0 else '%d' % t
+            return '(%d)%%Z' % t
         if isinstance(t, dict):
             if 's' in t:
                 return self.string(t['s'].encode('utf-8'))
